@@ -189,10 +189,28 @@ def retention_guards(prog: Program) -> RuleResult:
         gs = guards(fn, node)
         tag = f"{kind}#{idx}:{short(node, 50)}"
         size = _set_size(value) if kind == "assign" else None
+        base_value = value
         for policy in ("NONE", "ANY", "ALL"):
             oracle = _policy_oracle(fn, node, None, policy)
             residual = conj_guards(gs, oracle)
-            construct = f"{DP}:Entry.update/{kind}[{short(value, 40)}]/{policy}"
+            value = base_value
+            if kind == "assign":
+                # a conditional expression on the policy selects its branch
+                for _ in range(3):
+                    if isinstance(value, ast.IfExp):
+                        picked = peval(value.test, oracle)
+                        if isinstance(picked, bool):
+                            value = value.body if picked else value.orelse
+                            continue
+                        # unknown test (e.g. `info`): the guard joins the residual for the tag-storing branch
+                        sizes = (_set_size(value.body), _set_size(value.orelse))
+                        if sizes == (1, 0) or sizes == (0, 1):
+                            extra = (value.test, sizes == (1, 0))
+                            residual = conj_guards(list(gs) + [extra], oracle)
+                            value = value.body if sizes == (1, 0) else value.orelse
+                    break
+                size = _set_size(value)
+            construct = f"{DP}:Entry.update/{kind}[{short(base_value, 40)}]/{policy}"
             stores_tag = kind == "add" or (kind == "assign" and size != 0)
             if policy == "NONE":
                 if stores_tag and residual is not False:
@@ -363,10 +381,14 @@ def polarity(prog: Program) -> RuleResult:
     pval = method_def(proxy, "value")
     if pval is None:
         raise AnalysisError("EntryProxy.value not found")
-    rets = [n for n in walk_no_nested(pval) if isinstance(n, ast.Return) and n.value is not None
-            and any(_inf_sign(s) is not None for s in ast.walk(n.value))]
+    rets = []
+    for n in walk_no_nested(pval):
+        if isinstance(n, ast.Return) and n.value is not None:
+            gs = guards(pval, n)
+            if any(_none_test(g, nm) is not None and _none_test(g, nm) == pol for g, pol in gs for nm in _real_names(pval)):
+                rets.append(n)
     if not rets:
-        raise AnalysisError("EntryProxy.value: default (inf/-inf) return not found")
+        raise AnalysisError("EntryProxy.value: return on the missing-cell path not found")
     for node in rets:
         for policy, want in (("MIN", 1), ("MAX", -1)):
             got = _eval_inf(node.value, policy, policy_param_names=("merge_policy",))
@@ -376,7 +398,7 @@ def polarity(prog: Program) -> RuleResult:
             else:
                 res.fail(
                     construct,
-                    f"a cell never written reads as {short(node.value)} which is not the worst value under {policy}",
+                    f"a cell never written reads as `{short(node.value)}` which is not the worst value under {policy}",
                     mod,
                     node,
                 )
@@ -533,12 +555,31 @@ def proxy_none(prog: Program) -> RuleResult:
                                 mod,
                                 node,
                             )
-            if not found and stmt.name != "__len__":
-                raise AnalysisError(f"EntryProxy.{stmt.name}: None-path return not recognised")
+            if not found:
+                res.fail(
+                    f"{DP}:EntryProxy.{stmt.name}/missing-cell-answer",
+                    f"EntryProxy.{stmt.name} has no answer for a cell that was never written (no `is None` branch)",
+                    mod,
+                    stmt,
+                )
     if n_methods < 5:
         raise AnalysisError(f"PROXY-NONE: only {n_methods} EntryProxy methods use _get_real()")
     res.floor(8)
     return res
+
+
+def _real_names(fn: ast.AST) -> List[str]:
+    out = []
+    for node in walk_no_nested(fn):
+        if (
+            isinstance(node, ast.Assign)
+            and isinstance(node.value, ast.Call)
+            and isinstance(node.value.func, ast.Attribute)
+            and node.value.func.attr == "_get_real"
+            and isinstance(node.targets[0], ast.Name)
+        ):
+            out.append(node.targets[0].id)
+    return out
 
 
 def _none_test(test: ast.AST, name: str) -> Optional[bool]:
